@@ -14,6 +14,23 @@ def CRLF : Bytes := [CR, LF]
 
 def str (s : String) : Bytes := s.toUTF8.toList
 
+
+/-! byte-string constants as explicit lists: string literals do not reduce in the kernel -/
+def kHttp11 : Bytes := [72, 84, 84, 80, 47, 49, 46, 49]
+#guard kHttp11 = str "HTTP/1.1"
+def kContentLength : Bytes := [67, 111, 110, 116, 101, 110, 116, 45, 76, 101, 110, 103, 116, 104]
+#guard kContentLength = str "Content-Length"
+def kTransferEncoding : Bytes := [84, 114, 97, 110, 115, 102, 101, 114, 45, 69, 110, 99, 111, 100, 105, 110, 103]
+#guard kTransferEncoding = str "Transfer-Encoding"
+def kTrailer : Bytes := [84, 114, 97, 105, 108, 101, 114]
+#guard kTrailer = str "Trailer"
+def kChunked : Bytes := [99, 104, 117, 110, 107, 101, 100]
+#guard kChunked = str "chunked"
+def kGet : Bytes := [71, 69, 84]
+#guard kGet = str "GET"
+def kOk : Bytes := [79, 75]
+#guard kOk = str "OK"
+
 def asciiLower (b : UInt8) : UInt8 := if 65 ≤ b ∧ b ≤ 90 then b + 32 else b
 def lower (bs : Bytes) : Bytes := bs.map asciiLower
 def eqIgnoreCase (a b : Bytes) : Bool := lower a == lower b
